@@ -1175,6 +1175,97 @@ where
     }
 }
 
+/// Verification hooks (feature `verif-hooks`):
+/// access to the request processing step
+/// and association establishment over an arbitrary transport.
+#[cfg(feature = "verif-hooks")]
+impl<A, N> ServerAssociationOptions<'_, A, N>
+where
+    A: AccessControl,
+    N: Negotiation,
+{
+    /// Process an association request PDU
+    /// with the same logic used by [`establish`](Self::establish).
+    ///
+    /// In the success case, returns the PDU to be written back,
+    /// the outcome of each proposed presentation context,
+    /// and the maximum PDU length admitted by the requestor.
+    /// In the error case, returns the PDU to be written back.
+    #[allow(clippy::result_large_err)]
+    pub fn verif_process_rq(
+        &self,
+        msg: Pdu,
+    ) -> std::result::Result<(Pdu, Vec<PresentationContextNegotiated>, u32), Pdu> {
+        match self.process_a_association_rq(msg) {
+            Ok((pdu, negotiated, _called_ae_title)) => Ok((
+                pdu,
+                negotiated.presentation_contexts,
+                negotiated.peer_max_pdu_length,
+            )),
+            Err((pdu, _err)) => Err(pdu),
+        }
+    }
+
+    /// Negotiate an association over the given connected transport.
+    ///
+    /// This is [`establish`](Self::establish)
+    /// without the TCP specific socket timeouts.
+    pub fn verif_establish_over<S>(&self, mut socket: S) -> Result<ServerAssociation<S>>
+    where
+        S: std::io::Read + std::io::Write + CloseSocket,
+    {
+        ensure!(
+            !self.abstract_syntax_uids.is_empty() || self.promiscuous,
+            MissingAbstractSyntaxSnafu
+        );
+
+        let mut read_buffer = BytesMut::with_capacity(
+            (self.max_pdu_length.min(LARGE_PDU_SIZE) + PDU_HEADER_SIZE) as usize,
+        );
+        let msg = read_pdu_from_wire(
+            &mut socket,
+            &mut read_buffer,
+            self.max_pdu_length,
+            self.strict,
+        )?;
+        let mut write_buffer: Vec<u8> =
+            Vec::with_capacity((DEFAULT_MAX_PDU + PDU_HEADER_SIZE) as usize);
+        match self.process_a_association_rq(msg) {
+            Ok((
+                pdu,
+                NegotiatedOptions {
+                    user_variables,
+                    presentation_contexts,
+                    peer_max_pdu_length,
+                    peer_ae_title,
+                },
+                called_ae_title,
+            )) => {
+                write_pdu(&mut write_buffer, &pdu).context(SendPduSnafu)?;
+                socket.write_all(&write_buffer).context(WireSendSnafu)?;
+                Ok(ServerAssociation {
+                    presentation_contexts,
+                    requestor_max_pdu_length: peer_max_pdu_length,
+                    acceptor_max_pdu_length: self.max_pdu_length,
+                    socket,
+                    client_ae_title: peer_ae_title,
+                    write_buffer,
+                    strict: self.strict,
+                    read_buffer,
+                    user_variables,
+                    called_ae_title,
+                })
+            }
+            Err((pdu, err)) => {
+                // send the rejection/abort PDU
+                write_pdu(&mut write_buffer, &pdu).context(SendPduSnafu)?;
+                socket.write_all(&write_buffer).context(WireSendSnafu)?;
+                Err(err)
+            }
+        }
+    }
+}
+
 /// A DICOM upper level association from the perspective
 /// of an accepting application entity.
 ///
@@ -1690,6 +1781,91 @@ pub struct AsyncServerAssociation<S> {
     write_timeout: Option<std::time::Duration>,
     /// User variables received from the peer
     user_variables: Vec<UserVariableItem>,
+}
+
+/// Verification hook (feature `verif-hooks`):
+/// association establishment over an arbitrary asynchronous transport.
+#[cfg(all(feature = "async", feature = "verif-hooks"))]
+impl<A, N> ServerAssociationOptions<'_, A, N>
+where
+    A: AccessControl,
+    N: Negotiation,
+{
+    /// Negotiate an association over the given connected transport.
+    ///
+    /// This is [`establish_async`](Self::establish_async)
+    /// for any asynchronous stream.
+    pub async fn verif_establish_over_async<S>(
+        &self,
+        mut socket: S,
+    ) -> Result<AsyncServerAssociation<S>>
+    where
+        S: tokio::io::AsyncRead + tokio::io::AsyncWrite + Unpin + Send,
+    {
+        use tokio::io::AsyncWriteExt;
+        ensure!(
+            !self.abstract_syntax_uids.is_empty() || self.promiscuous,
+            MissingAbstractSyntaxSnafu
+        );
+        let read_timeout = self.socket_options.read_timeout;
+        let task = async {
+            let mut read_buffer = BytesMut::with_capacity(
+                (self.max_pdu_length.min(LARGE_PDU_SIZE) + PDU_HEADER_SIZE) as usize,
+            );
+            let pdu = super::read_pdu_from_wire_async(
+                &mut socket,
+                &mut read_buffer,
+                self.max_pdu_length,
+                self.strict,
+            )
+            .await?;
+
+            let mut write_buffer: Vec<u8> =
+                Vec::with_capacity((DEFAULT_MAX_PDU + PDU_HEADER_SIZE) as usize);
+            match self.process_a_association_rq(pdu) {
+                Ok((
+                    pdu,
+                    NegotiatedOptions {
+                        user_variables,
+                        presentation_contexts,
+                        peer_max_pdu_length,
+                        peer_ae_title,
+                    },
+                    called_ae_title,
+                )) => {
+                    write_pdu(&mut write_buffer, &pdu).context(SendPduSnafu)?;
+                    socket
+                        .write_all(&write_buffer)
+                        .await
+                        .context(WireSendSnafu)?;
+                    Ok(AsyncServerAssociation {
+                        presentation_contexts,
+                        requestor_max_pdu_length: peer_max_pdu_length,
+                        acceptor_max_pdu_length: self.max_pdu_length,
+                        socket,
+                        client_ae_title: peer_ae_title,
+                        write_buffer,
+                        strict: self.strict,
+                        read_buffer,
+                        read_timeout: self.socket_options.read_timeout,
+                        write_timeout: self.socket_options.write_timeout,
+                        user_variables,
+                        called_ae_title,
+                    })
+                }
+                Err((pdu, err)) => {
+                    // send the rejection/abort PDU
+                    write_pdu(&mut write_buffer, &pdu).context(SendPduSnafu)?;
+                    socket
+                        .write_all(&write_buffer)
+                        .await
+                        .context(WireSendSnafu)?;
+                    Err(err)
+                }
+            }
+        };
+        super::timeout(read_timeout, task).await
+    }
 }
 
 #[cfg(feature = "async")]
